@@ -94,6 +94,14 @@ def gen_pair(run, i):
             if j is not rj:
                 mapgen.struct_decl(spec, "dst", j["dst"])["fields"].append(
                     {"name": "Zpad", "emb": False, "ty": ["basic", "bool"], "tag": "", "vc": "full"})
+        # on the side that stays plain most embedded pointers become embedded values (a constructor argument read
+        # through an embedded pointer is the open finding K_map_ctor_arg_unguarded)
+        for side in ("src", "dst"):
+            for d in spec["decls"][side]:
+                if d["kind"] == "struct":
+                    for f in d["fields"]:
+                        if f["emb"] and f["ty"][0] == "ptr" and rng.random() < 0.8:
+                            f["ty"] = f["ty"][1]
         if mode in ("src", "both"):
             mapgen.to_shootnew(rng, spec, "src", rj["src"])
         if mode in ("dst", "both"):
